@@ -148,10 +148,11 @@ def parse_coverage(stdout):
     return cov
 
 
-def run_sharded(base, constants, nshards, tag='gen', parallel=16, marker='@@CASE', invariants=(),
+def run_sharded(base, constants, nshards, tag='gen', parallel=None, marker='@@CASE', invariants=(),
                 properties=(), constraints=(), init='Init', next_='Next', **kw):
     """Run `nshards` single-worker TLC processes of module `base` (constants + Shard/NShards) in
     parallel.  Returns (cases, stats)."""
+    parallel = parallel or int(os.environ.get('VERIF_PROCS', '16'))
     cases = []
     stats = dict(generated=0, distinct=0, wall=0.0, runs=0, depth=0)
     with Workdir() as wd:
